@@ -211,7 +211,14 @@ pub fn run(cfg: &Cfg, rep: &mut Report) {
             }
             for n in cands.iter().copied() {
                 let declared = decl.variants.iter().find(|(_, v)| *v == n);
-                match (declared, lookup(n)) {
+                let looked = match catch(|| lookup(n)) {
+                    Ok(x) => x,
+                    Err(p) => {
+                        r.violation(format!("C09:{}-lookup-panic", tag), format!("lookup_opcode({}) panicked: {}", n, p.msg), rp(n));
+                        continue;
+                    }
+                };
+                match (declared, looked) {
                     (None, None) => {}
                     (Some((name, _)), Some(e)) => {
                         if e.opcode != n {
